@@ -206,11 +206,145 @@ _MUTATORS = {'append', 'extend', 'add', 'update', 'insert', 'pop', 'remove', 'cl
              'setdefault', 'discard', 'reverse', 'popitem', 'appendleft', 'write'}
 
 
-def propagate_new_locals(fn, ref_names):
+_PURE_CALLS = {'len', 'isinstance', 'issubclass', 'str', 'repr', 'int', 'float', 'bool', 'tuple',
+               'type', 'id', 'hasattr', 'getattr', 'min', 'max', 'abs', 'ord', 'chr', 'sorted',
+               'list', 'dict', 'set', 'frozenset', 'any', 'all', 'sum', 'zip', 'enumerate',
+               'range', 'format', 'callable', 'divmod', 'round', 'bytes'}
+_PURE_METHODS = {'format', 'join', 'lower', 'upper', 'startswith', 'endswith', 'strip', 'lstrip',
+                 'rstrip', 'split', 'rsplit', 'replace', 'capitalize', 'title', 'isdigit',
+                 'isalpha', 'isalnum', 'isupper', 'islower', 'encode', 'decode', 'get', 'keys',
+                 'values', 'items', 'index', 'count', 'find', 'rfind', 'partition', 'rpartition',
+                 'splitlines', 'zfill', 'ljust', 'rjust', 'copy', 'isidentifier', 'group',
+                 'groups', 'span', 'start', 'end'}
+
+
+def _pure_call(c, ms=None):
+    """No object state is changed by the call: a builtin / string / mapping reader, or (with the
+    modification sets) a call none of whose possible callees assigns or updates anything."""
+    pure_functions = ()
+    if ms is not None and not ms.mod_of_call(c):
+        return True
+    f = c.func
+    if isinstance(f, ast.Name):
+        return f.id in _PURE_CALLS or f.id in pure_functions
+    if isinstance(f, ast.Attribute):
+        return f.attr in _PURE_METHODS or f.attr in pure_functions
+    return False
+
+
+def _dfs(node, out=None):
+    if out is None:
+        out = []
+    out.append(node)
+    for c in ast.iter_child_nodes(node):
+        _dfs(c, out)
+    return out
+
+
+def _may_move(fn, stmt, nm, ms, pure_functions):
+    """May the evaluation of ``stmt.value`` move from the assignment to every read of ``nm``?
+    (i) a value with an impure call: only to a single read in the head of the statement that
+    directly follows; (ii) otherwise, when impure calls lie between the assignment and the last
+    read, the value must not read state they may change (modset.ModSets: the attributes the
+    callees assign or update in place, transitively, against the attributes the value depends
+    on, properties expanded)."""
+    order = _dfs(fn)
+    pos = {id(n): i for i, n in enumerate(order)}
+    reads = [n for n in order if isinstance(n, ast.Name) and n.id == nm and
+             isinstance(n.ctx, ast.Load)]
+    if not reads:
+        return True
+    value = stmt.value
+    v_calls = [x for x in ast.walk(value) if isinstance(x, ast.Call)]
+    if len(reads) > 1 and (isinstance(value, ast.GeneratorExp) or (
+            isinstance(value, ast.Call) and isinstance(value.func, ast.Name) and
+            value.func.id in ('map', 'filter', 'zip', 'iter', 'reversed', 'enumerate'))):
+        return False        # an iterator read twice is not two iterators
+    impure_value = any(not _pure_call(c, ms) for c in v_calls)
+    # the block holding the assignment, and the statement after it
+    nxt = None
+    for n in order:
+        for field in ('body', 'orelse', 'finalbody'):
+            blk = getattr(n, field, None)
+            if isinstance(blk, list) and stmt in blk:
+                i = blk.index(stmt)
+                nxt = blk[i + 1] if i + 1 < len(blk) else None
+    if impure_value:
+        if len(reads) != 1 or nxt is None:
+            return False
+        if isinstance(nxt, (ast.If, ast.While)):
+            head = nxt.test
+        elif isinstance(nxt, (ast.For, ast.AsyncFor)):
+            head = nxt.iter
+        elif isinstance(nxt, (ast.With, ast.Try, ast.FunctionDef, ast.ClassDef)):
+            return False
+        else:
+            head = nxt
+        inside = {id(x) for x in ast.walk(head)}
+        if id(reads[0]) not in inside:
+            return False
+        # not under a lambda / comprehension / conditional expression of that head
+        for x in ast.walk(head):
+            if isinstance(x, (ast.Lambda, ast.ListComp, ast.SetComp, ast.DictComp,
+                              ast.GeneratorExp, ast.IfExp, ast.BoolOp)):
+                if any(y is reads[0] for y in ast.walk(x)) and not (
+                        isinstance(x, ast.BoolOp) and any(y is reads[0]
+                                                          for y in ast.walk(x.values[0]))):
+                    return False
+        return True
+    lo = pos[id(stmt)] + len(_dfs(stmt)) - 1
+    hi = max(pos[id(r)] for r in reads)
+    # a read inside a loop the assignment is outside of: the whole loop lies between
+    parents = {}
+    for n in order:
+        for c in ast.iter_child_nodes(n):
+            parents[id(c)] = n
+    for r in reads:
+        p = parents.get(id(r))
+        while p is not None and p is not fn:
+            if isinstance(p, (ast.For, ast.AsyncFor, ast.While)) and \
+                    not any(y is stmt for y in ast.walk(p)):
+                hi = max(hi, pos[id(p)] + len(_dfs(p)) - 1)
+            p = parents.get(id(p))
+    between = order[lo + 1:hi + 1]
+    calls_between = [x for x in between if isinstance(x, ast.Call) and
+                     not _pure_call(x, ms)]
+    stores_between = [x for x in between if isinstance(x, (ast.Attribute, ast.Subscript)) and
+                      isinstance(x.ctx, (ast.Store, ast.Del))]
+    if not calls_between and not stores_between:
+        return True
+    if ms is None:
+        return False
+    modset = set()
+    for c in calls_between:
+        modset |= ms.mod_of_call(c)
+    for x in stores_between:
+        b = x if isinstance(x, ast.Attribute) else x.value
+        if isinstance(b, ast.Attribute):
+            modset.add(b.attr)
+        elif isinstance(b, ast.Name):
+            modset.add('<name:%s>' % b.id)
+        else:
+            modset.add('*')
+    if '*' in modset:
+        return False
+    deps = set()
+    for x in ast.walk(value):
+        if isinstance(x, ast.Attribute):
+            deps |= ms.reads(x.attr)
+        elif isinstance(x, ast.Name):
+            deps.add('<name:%s>' % x.id)
+            if isinstance(getattr(x, 'ctx', None), ast.Load) and x.id in ms.by_name:
+                deps |= ms.reads(x.id)
+    return not (deps & modset)
+
+
+def propagate_new_locals(fn, ref_names, ms=None, pure_functions=frozenset()):
     """Introducing a local for an expression (to name it, or to evaluate it
     once) is undone: a local the reference function does not have, bound exactly
     once by a plain assignment, is replaced by its value at every read and the
-    assignment is dropped.  -> names propagated."""
+    assignment is dropped -- provided the evaluation may move there (``_may_move``).
+    -> names propagated."""
     import copy
     done = []
     for _ in range(3):
@@ -278,6 +412,8 @@ def propagate_new_locals(fn, ref_names):
                         nested = True
             if nested:
                 continue
+            if not _may_move(fn, stmt, nm, ms, pure_functions):
+                continue
             cand = (nm, stmt)
             break
         if cand is None:
@@ -308,7 +444,7 @@ def propagate_new_locals(fn, ref_names):
     return done
 
 
-def normalise_module(tree, modname, ref, stats, known=None):
+def normalise_module(tree, modname, ref, stats, known=None, ms=None):
     """Rename locals of every function of one module tree in place."""
     def visit(body, prefix):
         for s in body:
@@ -322,7 +458,7 @@ def normalise_module(tree, modname, ref, stats, known=None):
                         stats.append((q, m))
                 if known is not None and (r is not None or q in known):
                     ref_names = {nm for nm, _ in (r or [])}
-                    done = propagate_new_locals(s, ref_names)
+                    done = propagate_new_locals(s, ref_names, ms)
                     if done:
                         stats.append((q, {nm: '<propagated>' for nm in done}))
                 visit(s.body, q + '.<locals>')
